@@ -2,6 +2,8 @@
 
 use crate::cell::*;
 use crate::gen::*;
+use crate::mesh::RMesh;
+use crate::refmodel::{rotz, Fr, RParams, I3};
 use crate::report::{hash_combine, hash_f64s, jf, Mon};
 use crate::rng::Rng;
 use crate::{Kind, Prop, Spec, Tier};
@@ -21,6 +23,7 @@ fn spec() -> Spec {
         kinds: vec![
             Kind { name: "verdicts", quick: 6_000, thorough: 400_000, serial: false },
             Kind { name: "schedules", quick: 60, thorough: 2_000, serial: true },
+            Kind { name: "rx160", quick: 48, thorough: 1_500, serial: false },
         ],
         rule: "verdicts: synthetic cell (box links overlapping at the joints, vertex counts anti-correlated with size, with/without tool and base, 0..3 environment boxes of which most are placed at a designed gap d = r*u, u in [0,2], from a link or the tool) x safety table (touch-only, positive distances with to_environment != to_robot_default, per-pair overrides in both key orders, NEVER_COLLIDES on random pairs incl. pairs naming J1, J_BASE, J_TOOL and environment ids) x mode x posture; collision_details, collides and near(q, other table) are compared with the brute-force triangle/triangle oracle over the property's relevant pair list. schedules: the same query in rayon pools of 1,2,3,4,8,16 threads x repeats x injected delays at task boundaries, results must be identical; the hook event log must show exactly the relevant non-exempt pairs evaluated in all-collisions mode. non-trivial = at least one pair colliding and one free; distinct = hash(cell, posture, table)",
         assumptions: vec![
@@ -122,15 +125,44 @@ pub fn oracle_json(o: &Oracle) -> serde_json::Value {
     serde_json::Value::Array(o.pairs.iter().map(|((a, b), i)| json!([a, b, format!("{:?}", i.verdict), if i.dist.is_finite() { json!(i.dist) } else { json!(null) }, i.r, i.intersects])).collect())
 }
 
-/// Signature of a missed collision. Intersecting triangles with edges below ~2.5 cm are not seen by
-/// parry3d's GJK based triangle/triangle queries (f32): that miss has its own signature so that it can
-/// be listed as a known finding without hiding other misses.
-pub fn miss_signature(api: &str, a: usize, b: usize, info: &PairInfo) -> String {
-    if info.intersects && info.min_leg < 0.03 {
-        "missed-collision:intersecting-small-triangles(parry)".to_string()
-    } else {
-        format!("{}:missed-collision:{}:{}", api, category(a, b), if info.r == 0.0 { "touch" } else { "distance" })
+/// What parry3d itself answers for one pair, placed exactly as the library places it (f32 poses).
+pub fn parry_raw(cell: &Cell, q: &[f64; 6], a: usize, b: usize) -> (bool, f32) {
+    let fr = cell.link_frames(q);
+    let get = |id: usize| -> (parry3d::shape::TriMesh, nalgebra::Isometry3<f32>) {
+        if id < 6 {
+            (cell.links[id].to_trimesh(), fr_to_iso(&fr[id]).cast::<f32>())
+        } else if id == J_TOOL {
+            (cell.tool.as_ref().unwrap().to_trimesh(), fr_to_iso(&fr[5]).cast::<f32>())
+        } else if id == J_BASE {
+            (cell.base.as_ref().unwrap().to_trimesh(), fr_to_iso(&cell.base_tf).cast::<f32>())
+        } else {
+            let (m, f) = &cell.env[id - ENV_START_IDX];
+            (m.to_trimesh(), fr_to_iso(f).cast::<f32>())
+        }
+    };
+    let (ma, pa) = get(a);
+    let (mb, pb) = get(b);
+    let it = parry3d::query::intersection_test(&pa, &ma, &pb, &mb).unwrap_or(false);
+    let d = parry3d::query::distance(&pa, &ma, &pb, &mb).unwrap_or(f32::NAN);
+    (it, d)
+}
+
+/// Signature of a missed collision. parry3d's GJK based triangle/triangle queries (f32) are
+/// unreliable for triangles with edges below ~2.5 cm: crossing triangles are reported apart and
+/// distances are overestimated by up to millimetres (finding F1). A miss is attributed to F1 only
+/// if (a) one of the two meshes has such small triangles AND (b) parry3d's own raw query for the
+/// pair, asked directly by the monitor, gives the wrong answer; then the library's pair
+/// enumeration, exemption, pre-filter and threshold logic cannot be the cause. Every other miss
+/// keeps its own signature.
+pub fn miss_signature(cell: &Cell, q: &[f64; 6], api: &str, a: usize, b: usize, info: &PairInfo) -> String {
+    if info.min_leg < 0.03 {
+        let (raw_hit, raw_d) = parry_raw(cell, q, a, b);
+        let dependency_misses_it = if info.r == 0.0 { !raw_hit } else { !(raw_d <= info.r) };
+        if dependency_misses_it {
+            return "missed-collision:intersecting-small-triangles(parry)".to_string();
+        }
     }
+    format!("{}:missed-collision:{}:{}", api, category(a, b), if info.r == 0.0 { "touch" } else { "distance" })
 }
 
 pub struct Judged {
@@ -139,7 +171,7 @@ pub struct Judged {
 }
 
 /// Compare a reported pair list with the oracle under `mode`.
-pub fn judge_report(cell: &Cell, oracle: &Oracle, reported: &[(usize, usize)], mode: CheckMode, api: &str) -> Judged {
+pub fn judge_report(cell: &Cell, q: &[f64; 6], oracle: &Oracle, reported: &[(usize, usize)], mode: CheckMode, api: &str) -> Judged {
     let mut v = vec![];
     let colliding = oracle.set(Verdict::Colliding);
     let ambiguous = oracle.set(Verdict::Ambiguous);
@@ -177,7 +209,7 @@ pub fn judge_report(cell: &Cell, oracle: &Oracle, reported: &[(usize, usize)], m
             for k in &colliding {
                 if !seen.contains(k) {
                     v.push((
-                        miss_signature(api, k.0, k.1, &oracle.pairs[k]),
+                        miss_signature(cell, q, api, k.0, k.1, &oracle.pairs[k]),
                         "a pair closer than its safety distance is not reported in all-collisions mode".to_string(),
                         json!({"pair": [k.0, k.1], "distance": oracle.pairs[k].dist, "r": oracle.pairs[k].r}),
                     ));
@@ -191,9 +223,9 @@ pub fn judge_report(cell: &Cell, oracle: &Oracle, reported: &[(usize, usize)], m
             if !colliding.is_empty() && reported.is_empty() {
                 let k = colliding.iter().next().unwrap();
                 // attribute to the strongest evidence: a pair that is not a small-triangle intersection, if any
-                let k = colliding.iter().find(|k| !(oracle.pairs[*k].intersects && oracle.pairs[*k].min_leg < 0.03)).unwrap_or(k);
+                let k = colliding.iter().find(|k| !miss_signature(cell, q, api, k.0, k.1, &oracle.pairs[*k]).ends_with("(parry)")).unwrap_or(k);
                 v.push((
-                    miss_signature(api, k.0, k.1, &oracle.pairs[k]),
+                    miss_signature(cell, q, api, k.0, k.1, &oracle.pairs[k]),
                     "colliding pairs exist but first-collision mode reported nothing".to_string(),
                     json!({"pair": [k.0, k.1], "distance": oracle.pairs[k].dist, "r": oracle.pairs[k].r, "colliding": pairs_json(&colliding)}),
                 ));
@@ -204,10 +236,89 @@ pub fn judge_report(cell: &Cell, oracle: &Oracle, reported: &[(usize, usize)], m
 }
 
 fn run_case(kind: &str, idx: u64, rng: &mut Rng, mon: &mut Mon, _tier: Tier) {
-    if kind == "verdicts" {
-        verdicts(idx, rng, mon)
-    } else {
-        schedules(idx, rng, mon)
+    match kind {
+        "verdicts" => verdicts(idx, rng, mon),
+        "schedules" => schedules(idx, rng, mon),
+        _ => rx160(idx, rng, mon),
+    }
+}
+
+struct Rx160 {
+    links: [RMesh; 6],
+    base: RMesh,
+    tool: RMesh,
+    monolith: RMesh,
+}
+
+static RX160: std::sync::OnceLock<Rx160> = std::sync::OnceLock::new();
+
+#[allow(deprecated)]
+fn rx160_meshes() -> &'static Rx160 {
+    RX160.get_or_init(|| {
+        let dir = "/repo/src/tests/data";
+        let stl = |p: &str| RMesh::from_trimesh(&rs_opw_kinematics::read_trimesh::load_trimesh_from_stl(&format!("{}/{}", dir, p)));
+        Rx160 {
+            links: std::array::from_fn(|i| stl(&format!("staubli/rx160/link_{}.stl", i + 1))),
+            base: stl("staubli/rx160/base_link.stl"),
+            tool: RMesh::from_trimesh(&rs_opw_kinematics::read_trimesh::load_trimesh_from_ply(&format!("{}/flag.ply", dir))),
+            monolith: stl("object.stl"),
+        }
+    })
+}
+
+/// The cell of examples/complete_visible_robot.rs (bundled Staubli RX160 STL meshes, flag tool,
+/// monolith obstacles), with randomised obstacle positions, safety tables and postures.
+fn rx160(idx: u64, rng: &mut Rng, mon: &mut Mon) {
+    use rs_opw_kinematics::kinematic_traits::{J2, J3, J4, J6};
+    let m = rx160_meshes();
+    let rp = RParams { a1: 0.15, a2: 0.0, b: 0.0, c1: 0.55, c2: 0.825, c3: 0.625, c4: 0.11, offsets: [0.0; 6], signs: [1; 6], dof: 6 };
+    let mode = pick_mode(rng);
+    let example_table = SafetySpec {
+        to_environment: 0.05,
+        to_robot_default: 0.05,
+        special: vec![((J2, J_BASE), NEVER_COLLIDES), ((J3, J_BASE), NEVER_COLLIDES), ((J2, J4), NEVER_COLLIDES), ((J3, J4), NEVER_COLLIDES), ((J4, J_TOOL), 0.02), ((J4, J6), 0.02)],
+        mode,
+    };
+    let mut cell = Cell {
+        robot: Robot { rp, class: "rx160", sign_pattern: 0, offset_class: "none" },
+        links: m.links.clone(),
+        tool: Some(m.tool.clone()),
+        tool_tf: Fr::new(I3, [0.0, 0.0, 0.5]),
+        base: Some(m.base.clone()),
+        base_tf: Fr::new(I3, [0.4, 0.7, 0.0]),
+        env: vec![],
+        safety: example_table.clone(),
+        constraints: rs_opw_kinematics::constraints::Constraints::new([-3.9; 6], [3.9; 6], 0.0),
+        scale: rp.reach(),
+        fine: true,
+    };
+    // four monoliths as in the example, two of them moved to a random place inside the workspace
+    for (k, p) in [[1.0, 0.0, 0.0], [-1.0, 0.0, 0.0], [0.0, 1.0, 0.0], [0.0, -1.0, 0.0]].iter().enumerate() {
+        let pose = if k < 2 { Fr::new(I3, *p) } else { Fr::new(rotz(rng.range(-3.0, 3.0)), [0.4 + rng.range(-1.2, 1.2), 0.7 + rng.range(-1.2, 1.2), rng.range(0.0, 1.2)]) };
+        cell.env.push((m.monolith.clone(), pose));
+    }
+    if rng.bool(0.4) {
+        cell.safety = cell.random_safety(rng, mode);
+    }
+    let q = gen_posture(rng);
+    let robot = cell.build();
+    let oracle = cell.oracle(&q, &cell.safety);
+    count_oracle(mon, &oracle);
+    mon.count("rx160.postures");
+    let rep = robot.collision_details(&q);
+    let j = judge_report(&cell, &q, &oracle, &rep, mode, "collision_details");
+    for (sig, what, ex) in &j.violations {
+        mon.violation(&format!("rx160:{}", sig).replace("rx160:missed-collision:intersecting-small-triangles(parry)", "missed-collision:intersecting-small-triangles(parry)"), what, json!({"cell": "bundled RX160 meshes as in examples/complete_visible_robot.rs", "env": cell.env.iter().map(|(_, f)| json!({"r": f.r, "p": f.p})).collect::<Vec<_>>(), "safety": cell.safety.json(), "q": jf(&q), "reported": rep, "finding": ex, "oracle": oracle_json(&oracle)}));
+    }
+    if j.violations.is_empty() {
+        mon.held_n(oracle.pairs.len() as u64);
+    }
+    let nc = oracle.set(Verdict::Colliding).len();
+    if nc > 0 && !oracle.set(Verdict::Free).is_empty() {
+        mon.nontrivial(hash_combine(idx, hash_f64s(&q)));
+    }
+    if idx < 1 {
+        mon.sample(json!({"kind": "rx160", "q": jf(&q), "safety": cell.safety.json(), "reported": rep, "oracle_colliding": pairs_json(&oracle.set(Verdict::Colliding))}));
     }
 }
 
@@ -251,7 +362,7 @@ fn verdicts(idx: u64, rng: &mut Rng, mon: &mut Mon) {
     }
     // collision_details
     let rep = robot.collision_details(&q);
-    let j = judge_report(&cell, &oracle, &rep, mode, "collision_details");
+    let j = judge_report(&cell, &q, &oracle, &rep, mode, "collision_details");
     for (sig, what, ex) in &j.violations {
         mon.violation(sig, what, detail(json!({"reported": rep, "finding": ex})));
     }
@@ -264,8 +375,8 @@ fn verdicts(idx: u64, rng: &mut Rng, mon: &mut Mon) {
     let expect_false = mode == CheckMode::NoCheck || (nc == 0 && !oracle.any_ambiguous());
     if expect_true && !c {
         let cs = oracle.set(Verdict::Colliding);
-        let k = *cs.iter().find(|k| !(oracle.pairs[*k].intersects && oracle.pairs[*k].min_leg < 0.03)).unwrap_or(cs.iter().next().unwrap());
-        mon.violation(&miss_signature("collides", k.0, k.1, &oracle.pairs[&k]), "collides() is false although a relevant pair is closer than its safety distance", detail(json!({"pair": [k.0, k.1]})));
+        let k = *cs.iter().find(|k| !miss_signature(&cell, &q, "collides", k.0, k.1, &oracle.pairs[*k]).ends_with("(parry)")).unwrap_or(cs.iter().next().unwrap());
+        mon.violation(&miss_signature(&cell, &q, "collides", k.0, k.1, &oracle.pairs[&k]), "collides() is false although a relevant pair is closer than its safety distance", detail(json!({"pair": [k.0, k.1]})));
     } else if expect_false && c {
         mon.violation(&format!("collides:false-collision:{}", mode_name(mode)), "collides() is true although every relevant pair is free (or checking is off)", detail(json!({})));
     } else if expect_true || expect_false {
@@ -278,7 +389,7 @@ fn verdicts(idx: u64, rng: &mut Rng, mon: &mut Mon) {
     let s2 = cell.random_safety(rng, mode2);
     let o2 = cell.oracle(&q, &s2);
     let rep2 = robot.near(&q, &s2.build());
-    let j2 = judge_report(&cell, &o2, &rep2, mode2, "near");
+    let j2 = judge_report(&cell, &q, &o2, &rep2, mode2, "near");
     for (sig, what, ex) in &j2.violations {
         mon.violation(sig, what, json!({"cell": cell.json(), "q": jf(&q), "near_table": s2.json(), "reported": rep2, "finding": ex,
             "oracle": oracle_json(&o2)}));
@@ -394,7 +505,7 @@ fn schedules(idx: u64, rng: &mut Rng, mon: &mut Mon) {
     }
     mon.count_n("hook.path.prefilter_reject", *rejects.lock().unwrap());
     // the schedule runs must also agree with the oracle
-    let j = judge_report(&cell, &oracle, &baseline.clone().unwrap().into_iter().collect::<Vec<_>>(), CheckMode::AllCollsions, "collision_details");
+    let j = judge_report(&cell, &q, &oracle, &baseline.clone().unwrap().into_iter().collect::<Vec<_>>(), CheckMode::AllCollsions, "collision_details");
     for (sig, what, ex) in &j.violations {
         mon.violation(sig, what, json!({"cell": cell.json(), "q": jf(&q), "finding": ex}));
     }
